@@ -48,6 +48,48 @@ def synthRom (seed : Nat) : ByteArray := Id.run do
     out := out.push (if i == 0x147 || i == 0x148 || i == 0x149 then 0 else r.1.toUInt8)
   return out
 
+/-! ### explicit program image: `reset code <type2><romsize2><ramsize2> <addr4>:<hex> ...`
+    0x8000 <<< romsize bytes; byte i is 0 below 0x4000 and `fillByte i` from 0x4000 on; then the header bytes
+    0147-0149, then the segments in order. -/
+def fillByte (i : Nat) : Nat := if i < 0x4000 then 0 else (i * 7 + (i >>> 14) * 13 + (i >>> 8)) % 256
+
+def hexBytes (s : String) : Option (List Nat) :=
+  let rec go : List Char → Option (List Nat)
+    | [] => some []
+    | [_] => none
+    | a :: b :: rest => do
+      let x ← hexVal a
+      let y ← hexVal b
+      let r ← go rest
+      pure ((x * 16 + y) :: r)
+  go s.toList
+
+def codeRom (hdr : String) (segs : List String) : Option ByteArray := do
+  let h ← hexBytes hdr
+  match h with
+  | [t, rs, ra] =>
+    if rs > 3 then none else
+    let size := 0x8000 <<< rs
+    let mut out := ByteArray.emptyWithCapacity size
+    for i in [0:size] do
+      out := out.push (fillByte i).toUInt8
+    out := out.set! 0x147 t.toUInt8
+    out := out.set! 0x148 rs.toUInt8
+    out := out.set! 0x149 ra.toUInt8
+    for sg in segs do
+      match sg.splitOn ":" with
+      | [a, hx] =>
+        let a ← parseHex a
+        let bs ← hexBytes hx
+        if a + bs.length > size then none
+        let mut k := a
+        for b in bs do
+          out := out.set! k b.toUInt8
+          k := k + 1
+      | _ => none
+    pure out
+  | _ => none
+
 def imageOf (bytes : ByteArray) : Cart.Image :=
   { len := bytes.size, byte := fun i => (bytes.get! i).toNat }
 
@@ -143,7 +185,7 @@ def frLine (s : St) (w : Whole) : String :=
     let m := w.b.m
     let log := m.serial.log.map (·.toNat)
     s!"pix={hex8 (sumVec w.b.pix.frame)} cram={hex8 (sumList m.cart.dump)} serial={log.length}:{hex8 (sumList log)} " ++
-    s!"; samples={s.nS} {hex8 s.ckL} {hex8 s.ckR}"
+    s!"samples={s.nS} {hex8 s.ckL} {hex8 s.ckR}"
 
 def romDir : IO String := do
   let r := (← IO.getEnv "VERIF_REPO").getD "/repo"
@@ -167,6 +209,10 @@ def step (s : St) (w : List String) : IO (St × String) := do
     | some n => return startFrom (synthRom n)
     | none => return (s, "bad-op")
   | ["reset"] => return ({}, "ok")
+  | "reset" :: "code" :: hdr :: segs =>
+    match codeRom hdr segs with
+    | some rom => return startFrom rom
+    | none => return (s, "bad-op")
   | _ =>
     match s.w with
     | none => return (s, "nomachine")
